@@ -21,6 +21,8 @@ func propConfigs() map[string]*PropConfig {
 	add := func(pc *PropConfig) { m[pc.ID] = pc }
 	add(&PropConfig{ID: "T00", Prefix: "VH_T00_", Sets: []HarnessSet{hfiles("fast", "selftest/t00.go")},
 		Explain: "engine self-test"})
+	add(&PropConfig{ID: "T02", Prefix: "VH_T02_", Sets: []HarnessSet{hfiles("fast", "selftest/t02_range.go")}, StrBytes: 8,
+		Explain: "self-test: range over a symbolic string (rune decoding in the engine) against unicode/utf8.DecodeRuneInString executed from source"})
 	add(&PropConfig{ID: "T01", Prefix: "VH_T01_", Sets: []HarnessSet{hfiles("fast", "selftest/t01_str.go")}, StrBytes: 8,
 		Explain: "engine self-test: bounded bit-vector strings against Go string semantics on concrete vectors"})
 	fastLib := "fast/lib_fast.go"
@@ -54,7 +56,7 @@ func propConfigs() map[string]*PropConfig {
 			fp + "Interp).Cmd": "vhModelCmd", fp + "Interp).RunExpr": "vhModelRunExpr", "(*github.com/cosmos72/gomacro/base.Globals).Print": "vhModelPrint"},
 		Explain: "the real Interp.ReadParseEvalPrint / Read / ParseEvalPrint / Parse / afterEval and Stringer.IncLine run on chunks whose comment prefix and code are symbolic byte strings; the reader, the parser entry (which records Globals.Line and the text it is given), command dispatch, execution and printing are replaced by models"})
 	add(&PropConfig{ID: "C06", Prefix: "VH_C06_", Sets: []HarnessSet{hfiles("fast", fastLib, "fast/c19.go", "fast/c06.go", "fast/c06_address_gen.go", "fast/c06_func_gen.go", "fast/c06_call_gen.go")},
-		Redirect: map[string]string{"github.com/cosmos72/gomacro/gls.GoID": "vhModelGoID"},
+		Redirect: map[string]string{"github.com/cosmos72/gomacro/gls.GoID": "vhModelGoID", "(*github.com/cosmos72/gomacro/fast.Comp).expr1": "vhModelExpr1"},
 		Explain: "pattern C: the real newEnv, NewEnv, newEnv4Func, freeEnv, FreeEnv, freeEnv4Func, MarkUsedByClosure and Var.Address are executed from arbitrary valid pool states; the goroutine identity (assembly) is a model returning a harness variable"})
 	add(&PropConfig{ID: "C28", Prefix: "VH_C28_", StrBytes: 24, Thorough: func(n string) bool { return strings.Contains(n, "_T_") }, Sets: []HarnessSet{hfiles("go/typeutil", "typeutil/c28.go")},
 		Explain: "pattern A/C on concrete type shapes with symbolic attributes: the real typeutil.Identical/identical, Hasher.Hash/hashFor/hashTuple/hashString and Map.Set/At/Delete/Len run on types built with the real go/types-fork constructors (executed from source)"})
